@@ -45,18 +45,17 @@ def register(reg):
     reg.add(Contract(
         "basic_schedules.SingleMemoryStorageSchedule._iterator",
         self_class="SingleMemoryStorageSchedule", params=[("self", "obj")],
-        requires=FRESH, frame=["_n", "_r", "_max_n"], props=STREAM, exc_props={"*": ("C17", "C01")},
+        requires=FRESH, frame=["_n", "_r", "_max_n"], props=STREAM, exc_props={"*": ("C17", "C01", "C02")},
         hooks={"module": "ghost", "init": "sm_init", "emit_Forward": "sm_forward",
                "emit_EndForward": "sm_end_forward", "emit_Reverse": "sm_reverse",
                "emit_EndReverse": "sm_end_reverse", "env_frame": ["_n", "_max_n"]},
         loops=[
             LoopSpec("self._max_n is None", FWD_PHASE + [
-                ("N_below_maxsize", "g.N <= MAXSIZE"),
-                ("before_first_action", "implies(not g.known, self._n == 0 and g.fwd_def and g.fwd == 0 "
-                                        "and g.wlo == 0 and g.whi == 0 and g.told == 0 and not g.work_ics)"),
+                ("sweeping", "implies(not g.known, self._n == g.fwd and g.fwd_def and 0 <= g.fwd and g.fwd < g.N "
+                             "and g.wlo == 0 and g.whi == g.fwd and g.told == g.fwd and not g.work_ics)"),
                 ("finalised", "implies(g.known, self._max_n == g.N and self._n == g.N and g.fwd_def and "
                               "g.fwd == g.N and g.wlo == 0 and g.whi == g.N)")],
-                decreases="0 if g.known else 1"),
+                decreases="0 if g.known else g.N - g.fwd"),
             LoopSpec("True", [
                 ("phase", "g.phase == 1 and g.known and not g.done and g.N >= 1"),
                 ("position", "self._max_n == g.N and self._n == g.N and g.fwd_def and g.fwd == g.N"),
@@ -97,7 +96,7 @@ def register(reg):
         "basic_schedules.SingleDiskStorageSchedule._iterator",
         self_class="SingleDiskStorageSchedule", params=[("self", "obj")],
         requires=FRESH + [("not_exhausted", "not self._exhausted")],
-        frame=["_n", "_r", "_max_n", "_exhausted"], props=STREAM, exc_props={"*": ("C17", "C01")},
+        frame=["_n", "_r", "_max_n", "_exhausted"], props=STREAM, exc_props={"*": ("C17", "C01", "C02")},
         hooks={"module": "ghost", "init": "sd_init", "emit_Forward": "sd_forward",
                "emit_EndForward": "sd_end_forward", "emit_Reverse": "sd_reverse",
                "emit_Copy": "sd_copy", "emit_Move": "sd_move",
@@ -139,16 +138,15 @@ def register(reg):
     reg.add(Contract(
         "basic_schedules.NoneCheckpointSchedule._iterator", self_class="NoneCheckpointSchedule",
         params=[("self", "obj")], requires=FRESH + [("not_exhausted", "not self._exhausted")],
-        frame=["_n", "_r", "_max_n", "_exhausted"], props=STREAM, exc_props={"*": ("C17", "C01")},
+        frame=["_n", "_r", "_max_n", "_exhausted"], props=STREAM, exc_props={"*": ("C17", "C01", "C02")},
         hooks={"module": "ghost", "init": "nn_init", "emit_Forward": "nn_forward",
                "emit_EndForward": "nn_end_forward", "stop": "nn_stop", "env_frame": ["_n", "_max_n"]},
         loops=[
             LoopSpec("self._max_n is None", FWD_PHASE + [
-                ("N_below_maxsize", "g.N <= MAXSIZE"),
                 ("not_exhausted", "not self._exhausted"),
-                ("before_first_action", "implies(not g.known, self._n == 0 and g.fwd_def and g.fwd == 0 "
-                                        "and g.told == 0)"),
+                ("sweeping", "implies(not g.known, self._n == g.fwd and g.fwd_def and 0 <= g.fwd and "
+                             "g.fwd < g.N and g.told == g.fwd)"),
                 ("finalised", "implies(g.known, self._max_n == g.N and self._n == g.N and g.fwd_def and "
                               "g.fwd == g.N)")],
-                decreases="0 if g.known else 1"),
+                decreases="0 if g.known else g.N - g.fwd"),
         ]))
